@@ -77,7 +77,8 @@ def mkDown (rc fl edes mark ans soas extra : String) : Option (Option Down) := d
   let ss ← (listOf soas).mapM parseSoa
   let ex ← parseRRs extra
   let mk ← (if mark == "n" then some Mark.none else if mark == "c" then some Mark.cached
-            else if mark == "a" then some Mark.attempt else if mark == "l" then some Mark.other else none)
+            else if mark == "a" then some Mark.attempt else if mark == "l" || mark == "k" || mark == "p" || mark == "s" || mark == "m" || mark == "r"
+            then some Mark.other else none)
   match f with
   | [ad, tc, opt, hasQ] =>
     some (some { rcode := rcode, ad := ad, tc := tc, opt := opt, hasQ := hasQ,
@@ -117,7 +118,8 @@ def parseQName (s : String) : Option Name :=
   else nameOfHex s
 
 def parseFlags (s : String) : Option (List Bool) :=
-  if s.length == 4 then (flagsOf s 4).map (· ++ [false, false, false]) else flagsOf s 7
+  if s.length == 4 then (flagsOf s 4).map (· ++ [false, false, false, false])
+  else if s.length == 7 then (flagsOf s 7).map (· ++ [false]) else flagsOf s 8
 
 def parseClient (s : String) : Option IP :=
   match s.splitOn ":" with
@@ -167,11 +169,11 @@ def step (st : State) (w : List String) : State × String :=
     | _, _, _, _, _ => (st, "bad-op")
   | ["d64", "serve", cl, fl, qc, qt, qn, dn, ar] =>
     match parseClient cl, parseFlags fl, qc.toNat?, qt.toNat?, parseQName qn, parseDown dn, parseAResp ar with
-    | some c, some [internal, rd, cd, wx, replay, wire, twoQ], some qclass, some qtype, some qname, some down, some a =>
+    | some c, some [internal, rd, cd, wx, replay, wire, twoQ, qad], some qclass, some qtype, some qname, some down, some a =>
       -- a ledger handed over as a context value does not cross the wire-born detach boundary
       let q : Query := { client := c, internal := internal, rd := rd, cd := cd, qclass := qclass,
                          qtype := qtype, qname := qname, workExhausted := wx && !wire,
-                         replay := replay, wire := wire, twoQ := twoQ && !wire }
+                         replay := replay, wire := wire, twoQ := twoQ && !wire, ad := qad }
       (st, showReply q (serve st.cfg q down a))
     | _, _, _, _, _, _, _ => (st, "bad-op")
   | _ => (st, "bad-op")
